@@ -33,6 +33,7 @@ class Gen:
         self.with_defaults = rng.random() < 0.35    # such programs can only be observed postprocessed
         self.next_dflt = 0
         self.pending_over = []  # (vid, depth) of defaulted variables: overwrite some unconditionally later
+        self.dflt_vars = set()
         self.stats = dict(depth=0, chain=0, inner_decl=0, dyn=0, nested_path=0, shadow=0, xconst=0, stmts=0, else_if_space=0, var_index=0, index_reassigned=0, dyn_read=0, defaults=0, default_overwritten=0)
 
     def visible(self):
@@ -54,12 +55,18 @@ class Gen:
     def idxexpr(self, iw):
         """index of a dynamic access: preferably a mutable declared variable (re-assigned later)"""
         r = self.rng
-        cands = [vid for (vid, k, vw) in self.visible() if k == "u" and vw == iw]
+        # (a defaulted variable is not used as a bare index: the alias keeps a RefCtdNodePort to the
+        #  Node_Default, which then survives postprocessing and cannot be simulated -- reported finding)
+        cands = [vid for (vid, k, vw) in self.visible() if k == "u" and vw == iw and vid not in self.dflt_vars]
         if cands and r.random() < 0.6:
             vid = r.choice(cands)
             self.pending.append(vid); self.stats["var_index"] += 1
             return "s %d" % vid
-        return self.uexpr(iw, 1)
+        e = self.uexpr(iw, 1)
+        t = e.split()
+        if len(t) == 2 and t[0] == "s" and int(t[1]) in self.dflt_vars:
+            e = "or %s %s" % (e, e)
+        return e
 
     def dynread_u(self, w):
         """UInt of width w read through a dynamic slice / part, or None"""
@@ -191,6 +198,7 @@ class Gen:
             kk = self.next_dflt; self.next_dflt += 1
             self.vars.append((vid, k, w))
             self.pending_over.append((vid, depth))
+            self.dflt_vars.add(vid)
             self.stats["defaults"] += 1
             if depth > 0:
                 self.stats["inner_decl"] += 1
@@ -776,6 +784,7 @@ def main():
     kinds_total = {}
     undef_seq = 0; oracle_def = 0; xvals = 0; dead_reads = live_reads = 0
     node_hist = {}
+    ndef_loopy = ndef_final = 0
     samples = []
     for pid, lines in progs:
         pins, body, vecs = prog_pieces(lines)
@@ -789,6 +798,11 @@ def main():
             for item in mh.split()[1].split(",") if len(mh.split()) > 1 else []:
                 n, _, cnt = item.partition(":")
                 node_hist[n] = node_hist.get(n, 0) + int(cnt)
+        md, od = res.get((pid, "-", "MD")), res.get((pid, "-", "OD"))
+        if md is not None:
+            ndef_loopy += md.count("loopy"); ndef_final += md.count("final")
+            if od is not None and od != md:
+                mism.append((pid, "-", "default-classification-oracle-vs-model", dict(model=md, oracle=od)))
         if res.get((pid, "-", "MODEL-PARSE-ERROR")) is not None:
             mism.append((pid, "-", "model-parse-error", res[(pid, "-", "MODEL-PARSE-ERROR")]))
         bh = hashlib.sha1("\n".join(body).encode()).hexdigest()
@@ -831,8 +845,12 @@ def main():
         cases_sequential_run_undefined=undef_seq,
         cases_oracle_defined=oracle_def,
         cases_with_undefined_final_bits=xvals,
-        reads_live=live_reads, reads_dead=dead_reads)
+        reads_live=live_reads, reads_dead=dead_reads,
+        default_nodes_keeping_constant=ndef_loopy, default_nodes_showing_final_value=ndef_final)
     rep.cov["run_seconds"] = round(t_run, 1)
+    rep.cov["level_note"] = ("proof: elab_correct & co for all programs/inputs (default node outputs are free inputs of the theorem); "
+                             "the transcription of defaultValueResolution (which default nodes keep their constant) and the "
+                             "postprocessed-only observation of programs with defaults are differential (model + independent oracle)")
     rep.assumptions = [
         "modelled, not verified: FrontendDefs.elab_* is a hand transcription of ConditionalScope.cpp / BitVector.cpp / Bit.cpp / "
         "BitVectorSlice.cpp; node semantics (mux, rewire, logic, add, eq) transcribed from the simulateEvaluate functions; agreement is sampled (this run)",
@@ -843,8 +861,17 @@ def main():
         "model driver): the reference simulator is not monotone for undefined selectors (DESIGN.md 3.1, Q6)",
         "programs are lexically scoped C++: a variable declared in a block is not used after the block (the model pops it like C++ destroys it)",
         "every variable is initialised at its declaration (an unassigned gatery signal is a forward reference / loop, outside this property)",
-        "not modelled: Node_Default / BitDefault declarations (by design a default-declared signal that is later assigned "
-        "unconditionally makes EARLIER reads see the LATER value: tests/frontend/defaults.cpp NonLoopWithDefault), "
+        "defaults (Bit x = BitDefault(d) / UInt via SliceableBitVector::operator=(UIntDefault)): the default node's output is an extra "
+        "input of the elaborated circuit (elab_correct holds for every value of it); FrontendDefaultDefs.resolve_all transcribes "
+        "defaultValueResolution (loop test on the node table, creation order, an already bypassed node is transparent) and "
+        "resolved_rho gives the node its constant if loopy, else the FINAL value of the variable (gatery's forward reference "
+        "semantics: earlier reads / IF conditions then see the later unconditional assignment, tests/frontend/defaults.cpp "
+        "NonLoopWithDefault). Proved: elab_correct_resolved (circuit = software run started from the resolved values) and "
+        "elab_correct_defaults (all nodes loopy => defaults are plain initial values). The agreement of resolve_all with the C++ pass "
+        "and the non-loopy case are differential only: programs with defaults are observed after design.postprocess() only "
+        "(Node_Default cannot be simulated) and compared with the model and with the harness oracle, whose classification is an "
+        "independent structural dependency analysis on the AST (compared with the model's for every program). "
+        "Not modelled: x = Default(..) on an already driven signal (a no-op), a defaulted variable used as a bare dynamic index, "
         "EnableScope side of ConditionalScope (registers / memory ports), width-expanding assignments, override=true scopes",
         "the scope bookkeeping logic is read as single four-state bits (theorem scope_logic_is_node_logic relates it to Node_Logic on width-1 ports)",
         "theorem quantifies over all s_nextId start values >= 1; the harness runs many designs per process so the counter really differs per program",
